@@ -70,6 +70,29 @@ CLAIMED = {
              "fresh ToSQL (context identity, sql, args by DeepEqual, result and error pass-through) over the full configuration cube.",
         note="As C12.",
         ref="DESIGN.md §6 C13"),
+    "C17": dict(
+        technique="Coq proof (handle invariant) + SetSelf census over the regenerated Go AST + exhaustive refinement x inherited-method harness",
+        text="C17_setself_establishes: x.Exp = x as last statement makes the handle a copy of the value; C17_operand: with a current "
+             "handle the operand inside the larger expression is exactly the refined value (its text is the standalone rendering, "
+             "unparenthesised); C17_current_tree: all 51 functions that return a struct embedding ExpBase (constructors, every "
+             "refinement method, wrappers in fn and the root package) end with x.Exp = x for the returned value or delegate to "
+             "one that does - re-read from /repo on every run. Harness: every refinement sequence up to length 3/4 x every "
+             "method of ExpBase (reflection): text through the inherited method = text through ExpBase{Exp: refined}, starts "
+             "with the standalone rendering, and the handle is a field-wise copy of the value.",
+        note="Trusted: translator (pure AST dump); the reading of Go's value-copy semantics of x.Exp = x in Model/Handle.v.",
+        ref="DESIGN.md §6 C17"),
+    "C18": dict(
+        technique="Coq checker for every wrapper over the regenerated Go AST + behavioural enumeration of all wrappers",
+        text="C18_wrapper_of_check / C18_current_tree: each of the 72 generic wrappers of package fn plus COALESCE/NULLIF/GREATEST/"
+             "LEAST emits the symbol its Go name (and, where present, its comment) denotes, passes all parameters in declared "
+             "order with optional ones only when supplied, through the constructor of its result type; the 23 operator methods "
+             "use a constant whose value is the operator the name/comment denotes (census: no other), the LIKE/IN/IS NULL "
+             "family uses the right keyword on the receiver's handle, the root package re-exports pass through. Regenerated "
+             "from /repo on every run, so added wrappers are included. Harness: every wrapper (registry regenerated from source) "
+             "for every arity with distinguishable arguments, compared with the generic constructor.",
+        note="The name->symbol rule is normalisation (case, underscores); the operator table is a small hand table in "
+             "Meta/Wrappers.v (what the names denote). Defect D3 was repaired (fix: commit).",
+        ref="DESIGN.md §6 C18"),
     "C19": dict(
         technique="Coq interpreter for the conditional combinators over the regenerated Go AST (whole input space) + law evaluated on the implementation",
         text="The five ApplyIf/PropIf bodies are re-read from /repo on every run and executed for all four combinations of "
